@@ -556,6 +556,8 @@ def oracle_numeric(c, o):
         m = o['m']
         if o['kx'] != [float(j - m // 2) for j in range(m)]:
             return f'remove_readout_os {c["n0"]} -> {m}: Cartesian kx after cropping is {o["kx"]}, the reduced grid is {[j - m // 2 for j in range(m)]}'
+        if o['center'] != [m // 2]:
+            return f'remove_readout_os {c["n0"]} -> {m}: center_sample {o["center"]} after cropping a centred readout, kx = 0 is at sample {m // 2}'
         return None
     if o['lin_res'] > 1e-4:
         return f'compress_coils is not a linear map of the coil axis (residual {o["lin_res"]:.3g})'
@@ -578,8 +580,8 @@ def extra_checks(ctx):
 FAMILIES = [
     Family('transform_sequence', gen_seq, impl_seq_cached, coq_seq, PREAMBLE, cmp_seq, oracle_seq,
            nontrivial=lambda c: any(o['op'] in ('split_k1', 'split_k2', 'select', 'rearrange', 'remove_os') for o in c['ops']),
-           descr=descr_seq, shard=20, theorem='C15_pairing, C15_multiset_*, C15_shapes_*, C15_split_label_shape_refuted'),
+           descr=descr_seq, shard=20, theorem='C15_pairing, C15_multiset_*, C15_os_crop_window, C15_os_center_sample_consistent, C15_split_label_shape(_refuted)'),
     Family('split_idx', gen_sidx, impl_sidx, coq_sidx, PREAMBLE, cmp_sidx, oracle_sidx, theorem='C15_split_idx_*'),
     Family('numeric_claims', gen_numeric, impl_numeric, None, '', None, oracle_numeric, descr=descr_numeric,
-           theorem='(implementation-level: remove_readout_os image claim, compress_coils projector)'),
+           theorem='C15_os_centred_symmetric (kx / center_sample of a centred readout); implementation-level: remove_readout_os image claim, compress_coils projector'),
 ]
